@@ -104,6 +104,7 @@ type c14Spec struct {
 	SP      []c14SP     `json:"sp,omitempty"`
 	From    []string    `json:"from,omitempty"`
 	Limit   int         `json:"limit,omitempty"`
+	Room    string      `json:"room,omitempty"` // roomID argument of RequestBackfill
 	Servers []string    `json:"servers,omitempty"`
 	BF      []c14BF     `json:"bf,omitempty"`
 	Fuel    int         `json:"fuel"`
@@ -269,6 +270,32 @@ func (w *c14World) allowedReal(e int, set []int) bool {
 
 func c14Tuple(p gmsl.PDU) string { return p.Type() + "\x00" + *p.StateKey() }
 
+// index of the first occurrence of keys[i]
+func c14FirstKey(keys []string, i int) int {
+	for j := 0; j < i; j++ {
+		if keys[j] == keys[i] {
+			return j
+		}
+	}
+	return i
+}
+
+// oneCopyPerTuple keeps, of several pool texts with the same tuple (they then share the event
+// ID), the last one - what an AuthEvents container filled in this order holds.
+func (w *c14World) oneCopyPerTuple(set []int) []int {
+	last := map[string]int{}
+	for _, u := range set {
+		last[c14Tuple(w.pdu(u))] = u
+	}
+	var out []int
+	for _, u := range set {
+		if last[c14Tuple(w.pdu(u))] == u {
+			out = append(out, u)
+		}
+	}
+	return out
+}
+
 // derive builds args[1]. extraAllowed lists additional (event, auth set) pairs.
 func (w *c14World) derive(extraAllowed [][2]interface{}, topo [][2][]int) []byte {
 	sp := w.spec
@@ -277,7 +304,8 @@ func (w *c14World) derive(extraAllowed [][2]interface{}, topo [][2][]int) []byte
 	for i := range sp.Texts {
 		p := w.parsed[i]
 		if p.pdu == nil {
-			w.events[i] = []interface{}{0, 0, -1, 0, 0, []int{}}
+			// placeholder for a text that does not parse: an ID no event has
+			w.events[i] = []interface{}{w.id("\x00unparsable"), 0, -1, 0, 0, []int{}}
 			continue
 		}
 		sk := -1
@@ -370,6 +398,36 @@ func (w *c14World) derive(extraAllowed [][2]interface{}, topo [][2][]int) []byte
 			emit(x[0].(int), x[1].([]int))
 		}
 	}
+	// VerifyAuthRulesAtState judges an event by the whole state it is given
+	for _, st := range sp.SP {
+		if sp.E2E || st.StateErr {
+			continue
+		}
+		var set []int
+		tuples := map[string]string{}
+		ok := true
+		for i, v := range st.Vals {
+			if i >= len(st.Keys) || c14FirstKey(st.Keys, i) != i {
+				continue
+			}
+			if p := w.pdu(v); p != nil && p.StateKey() != nil {
+				if prev, dup := tuples[c14Tuple(p)]; dup && prev != p.EventID() {
+					ok = false
+				}
+				tuples[c14Tuple(p)] = p.EventID()
+				set = append(set, v)
+			}
+		}
+		// two pool texts with the same event ID and tuple may both be present: Allowed sees one
+		if ok {
+			set = w.oneCopyPerTuple(set)
+			for e := range sp.Texts {
+				if p := w.pdu(e); p != nil && p.EventID() == st.ID {
+					emit(e, set)
+				}
+			}
+		}
+	}
 	prov := [][]interface{}{}
 	for _, sc := range sp.Prov {
 		var as []interface{}
@@ -387,6 +445,9 @@ func (w *c14World) derive(extraAllowed [][2]interface{}, topo [][2][]int) []byte
 		if !s.StateErr {
 			m := [][]int{}
 			for i, k := range s.Keys {
+				if c14FirstKey(s.Keys, i) != i {
+					continue // a Go map has one value per key; the first binding counts
+				}
 				v := -1
 				if i < len(s.Vals) && w.pdu(s.Vals[i]) != nil {
 					v = s.Vals[i]
@@ -416,7 +477,7 @@ func (w *c14World) derive(extraAllowed [][2]interface{}, topo [][2][]int) []byte
 		"A": w.items(sp.A), "S": w.items(sp.S), "J": sp.J, "E": sp.E, "av": c14b(sp.AV),
 		"R": w.items(sp.R), "sp": spj, "topo": topo, "vk": c14b(verr == nil),
 		"from": w.ids(sp.From), "limit": sp.Limit, "servers": servers, "bf": bf,
-		"ver": sp.Ver,
+		"ver": sp.Ver, "op": sp.Op, "room": w.intern("room", sp.Room),
 	}
 	b, err := json.Marshal(out)
 	if err != nil {
@@ -438,6 +499,7 @@ type c14Providers struct {
 	w      *c14World
 	script map[string][][]int
 	log    []string
+	calls  int
 }
 
 func newC14Providers(w *c14World) *c14Providers {
@@ -453,6 +515,10 @@ func newC14Providers(w *c14World) *c14Providers {
 // ProvideEvents: one answer per requested ID is consumed (the last one stays); any error answer
 // makes the whole call fail.
 func (p *c14Providers) ProvideEvents(roomVer gmsl.RoomVersion, eventIDs []string) ([]gmsl.PDU, error) {
+	// a caller that never stops asking (finding F82) is reported with the input at hand
+	if p.calls++; p.calls > 5000 {
+		panic("c14: the event provider was asked more than 5000 times in one call: the caller does not stop retrying")
+	}
 	p.log = append(p.log, "P:"+c14JoinInts(c14SortedUnique(p.w.ids(eventIDs)), "+"))
 	var out []gmsl.PDU
 	failed := false
@@ -683,7 +749,7 @@ func c14Impl(args [][]byte) ([][]byte, []byte) {
 			}
 		}
 		p := newC14Providers(w)
-		res, err := gmsl.RequestBackfill(ctx, "origin.example", p, c14Verifier{}, "!room:example", w.ver, sp.From, sp.Limit, c14UserID)
+		res, err := gmsl.RequestBackfill(ctx, "origin.example", p, c14Verifier{}, sp.Room, w.ver, sp.From, sp.Limit, c14UserID)
 		ids := make([]int, len(res))
 		for i, e := range res {
 			ids[i] = w.id(e.EventID())
